@@ -1625,10 +1625,10 @@ namespace awkward {
       if (offsets.length() == 0) {
         return std::pair<Index64, ContentPtr>(
           offsets,
-          std::make_shared<IndexedArrayOf<T, ISOPTION>>(Identities::none(),
-                                                        util::Parameters(),
-                                                        outindex,
-                                                        flattened));
+          IndexedArrayOf<T, ISOPTION>(Identities::none(),
+                                      util::Parameters(),
+                                      outindex,
+                                      flattened).simplify_optiontype());
       }
       else {
         Index64 outoffsets(offsets.length() + numnull);
@@ -2262,7 +2262,7 @@ namespace awkward {
                                              mask,
                                              keepdims);
 
-    if (!branchdepth.first  &&  negaxis == branchdepth.second) {
+    if (!branchdepth.first  &&  negaxis >= branchdepth.second) {
       return out;
     }
     else {
